@@ -638,8 +638,9 @@ def make_logging(np, real, rec):
 def well_posed(np, X, w, k):
     """'Clearly well-posed' input of one mixture fit - the rule under which a GROSS monitored failure is
     reported as a violation: finite data with |x| <= 1e6, finite non-negative weights of positive sum, at least
-    4*k*(d+1) distinct points among those that carry non-negligible weight (>= 1e-6 of the largest), and every
-    coordinate of those points spreads over >= 1e-3."""
+    4*k*(d+1) distinct points among those that carry non-negligible weight (>= 1e-6 of the largest), every
+    coordinate of those points spreads over >= 1e-3, and they are not (nearly) confined to a lower-dimensional
+    subspace (smallest / largest singular value of the centred points >= 1e-3)."""
     n, d = X.shape
     if not np.all(np.isfinite(X)) or np.max(np.abs(X)) > 1e6:
         return False
@@ -649,7 +650,10 @@ def well_posed(np, X, w, k):
     eff = X[ww >= 1e-6 * ww.max()]
     if len(np.unique(eff, axis=0)) < 4 * k * (d + 1):
         return False
-    return bool(np.all(eff.max(axis=0) - eff.min(axis=0) >= 1e-3))
+    if not np.all(eff.max(axis=0) - eff.min(axis=0) >= 1e-3):
+        return False
+    sv = np.linalg.svd(eff - eff.mean(axis=0), compute_uv=False)     # not (nearly) confined to a subspace
+    return bool(sv.min() >= 1e-3 * sv.max())
 
 
 def fixed_case(np, j):
@@ -694,6 +698,11 @@ def _real_case(args):
         c["d"], c["n"] = c["X"].shape[1], c["X"].shape[0]
     else:
         c = gen_case(np, seed, i, tier)
+    return run_case(c, seed)
+
+
+def run_case(c, seed):
+    np, cluster = _G["np"], _G["cluster"]
     X, w, d, n = c["X"], c["w"], c["d"], c["n"]
     cfg = {k: c[k] for k in ("i", "d", "n", "kind", "wkind", "scaled", "normalize", "modifier", "max_iterations", "min_points", "style", "ctype")}
     out = {"cfg": cfg, "violations": [], "monitor": [], "trace": None, "fits": 0, "wall": 0.0}
@@ -833,7 +842,7 @@ def trace_module(traces):
             "=============================================================================\n")
 
 
-def validate_batch(traces):
+def validate_batch(traces, diagnose=True):
     """Validate a batch of recorded traces with TLC.  Returns (verdicts, tlc totals): verdicts[i] is
     ("accepted",) | ("invariant", name, error_trace) | ("rejected", event index, last matched state)."""
     verdicts = [None] * len(traces)
@@ -865,7 +874,9 @@ def validate_batch(traces):
             if pos in acc:
                 verdicts[i] = ("accepted",)
         for pos, i in enumerate(alive, start=1):
-            if pos not in acc:
+            if pos not in acc and not diagnose:
+                verdicts[i] = ("rejected", 0, {})
+            elif pos not in acc:
                 # diagnose: the single trace, every reached state dumped; the furthest position is the first unmatched event
                 r1 = tlc.run_tlc("HGMTrace", TRACE_CFG, dump=True, workers=1, timeout=600,
                                  extra_modules={"HGMTraceData.tla": trace_module([traces[i]])})
@@ -882,6 +893,92 @@ def validate_batch(traces):
     return verdicts, totals
 
 
+def corrupt_traces(trace):
+    """Binding self-test: single-field corruptions of an accepted trace that HGMTrace must reject."""
+    ev = list(trace["ev"])
+    out = []
+    iK = next(i for i, e in enumerate(ev) if e["ev"] == "K")
+    iL = iK + 1
+    lab = list(ev[iL]["labels"])
+    K = ev[iK]["K"]
+    e2 = list(ev); e2[iK] = dict(ev[iK], K=K + 1); out.append(("K+1", dict(trace, ev=tuple(e2))))
+    l2 = list(lab); l2[0] = (lab[0] + 1) % max(K, 2); e2 = list(ev); e2[iL] = dict(ev[iL], labels=tuple(l2)); out.append(("one label changed", dict(trace, ev=tuple(e2))))
+    e2 = list(ev) + [dict(ev[-1], ev="P", label=K)]; out.append(("predicted label = K", dict(trace, ev=tuple(e2))))
+    iE = [i for i, e in enumerate(ev) if e["ev"] == "E"]
+    if iE:
+        e2 = list(ev); del e2[iE[-1]]; out.append(("evaluation dropped", dict(trace, ev=tuple(e2))))
+        ia = [i for i in iE if ev[i]["asked"]]
+        if ia:
+            e2 = list(ev); e2[ia[0]] = dict(ev[ia[0]], asked=False, lab=()); out.append(("asked flag cleared", dict(trace, ev=tuple(e2))))
+            labs = list(ev[ia[0]]["lab"]); labs[0] = 1 - labs[0]
+            e2 = list(ev); e2[ia[0]] = dict(ev[ia[0]], lab=tuple(labs)); out.append(("child label flipped", dict(trace, ev=tuple(e2))))
+        e2 = list(ev); e2[iE[0]] = dict(ev[iE[0]], size=ev[iE[0]]["size"] + 1); out.append(("cluster size + 1", dict(trace, ev=tuple(e2))))
+    out.append(("cap lowered below K", dict(trace, maxIter=max(K - 2, 0)))) if K >= 2 else None
+    return out
+
+
+def do_replay(ck, path):
+    """--replay <file>: re-run one recorded violation."""
+    import numpy as np
+    from tempest import cluster
+    with open(path) as f:
+        rec = json.load(f)
+    rp = rec["replay"]
+    print(f"replaying {rec['key']}: {rec['what'][:200]}")
+    if "state" in rp:      # binding B
+        def fz(v):
+            return frozenset(v) if isinstance(v, list) else v
+        st = dict(rp["state"])
+        st["clusters"] = tuple(frozenset(c) for c in st["clusters"])
+        st["log"] = tuple({k: (frozenset(v) if k in ("ids", "c1") else v) for k, v in e.items()} for e in st["log"])
+        st["splits"] = tuple({k: (frozenset(v) if k in ("ids", "c1", "c2") else v) for k, v in e.items()} for e in st["splits"])
+        st["labels"] = tuple(st["labels"])
+        st["iter"] = max([e["it"] for e in st["log"]] + [0])
+        K = st["K"]
+        tbl = {(st["clusters"], "any", -1): set(range(K))}
+        tbl.update({(st["clusters"], "centre", k): {k} for k in range(K)})
+        stats = {"replayed": 0, "with_split": 0, "predictions": 0, "centre_exact": 0}
+        replay_state(ck, np, cluster, st, rp["variant"], tbl, stats)
+    elif "trace" in rp and "X" in rp:   # binding A: re-run the real fit, re-validate its trace
+        c = {k: rp[k] for k in ("i", "d", "n", "kind", "wkind", "scaled", "normalize", "modifier", "max_iterations", "min_points", "style", "ctype")}
+        c["X"] = np.array(rp["X"], dtype=float)
+        c["w"] = None if rp["w"] is None else np.array(rp["w"], dtype=float)
+        o = run_case(c, rp.get("seed", 0))
+        for key, what, r_ in o["violations"]:
+            ck.violation(key, what, r_)
+        if o["trace"] is not None:
+            verdicts, _ = validate_batch([o["trace"]])
+            print("TLC verdict on the re-recorded trace:", verdicts[0][0], verdicts[0][1] if len(verdicts[0]) > 1 else "")
+            if verdicts[0][0] != "accepted":
+                ck.violation(rec["key"], rec["what"], rp)
+    elif "covariance_type" in rp and "k" in rp:
+        X = np.array(rp["X"], dtype=float)
+        w = None if rp["w"] is None else np.array(rp["w"], dtype=float)
+        g = cluster.GaussianMixture(n_components=rp["k"], covariance_type=rp["covariance_type"], n_init=1, random_state=42).fit(X, w)
+        bad = monitor_fit(np, g, X, w)
+        print("monitored predicates failing:", bad)
+        if any(k.endswith("!") for k in bad):
+            ck.violation(rec["key"], rec["what"], rp)
+    elif "X" in rp:
+        X = np.array(rp["X"], dtype=float)
+        w = None if rp["w"] is None else np.array(rp["w"], dtype=float)
+        try:
+            h = cluster.HierarchicalGaussianMixture(n_init=1, max_iterations=rp["max_iterations"], min_points=rp["min_points"],
+                                                    threshold_modifier=rp["modifier"], covariance_type=rp["ctype"], normalize=rp["normalize"]).fit(X, w)
+            p_ = h.predict(X)
+            print("fit ok: K =", h.n_clusters_, "labels in range:", set(map(int, h.labels_)) <= set(range(h.n_clusters_)),
+                  "predictions in range:", set(map(int, p_)) <= set(range(h.n_clusters_)))
+        except Exception as ex:
+            ck.violation(rec["key"], f"{ex!r}", rp)
+    ck.args.no_evidence = True
+    ck.finish({"states": 0, "transitions": 0, "traces_validated_against_impl": 1})
+
+
+def json_trace(t):
+    return {"n": t["n"], "minPts": t["minPts"], "maxIter": t["maxIter"],
+            "ev": tuple(dict(e, lab=tuple(e["lab"]), labels=tuple(e["labels"])) for e in t["ev"])}
+
+
 def main():
     ck = core.Check("C15", "model_checking")
     core.import_repo()
@@ -890,6 +987,8 @@ def main():
     from tempest import cluster
 
     _G.update(np=np, cluster=cluster)
+    if ck.args.replay:
+        do_replay(ck, ck.args.replay)
     quick = ck.tier == "quick"
     nreal = 108 if quick else 1512
     mp_pool = mp.get_context("fork").Pool(12)     # forked before any thread exists
@@ -999,6 +1098,7 @@ def main():
     batches = [list(range(a, min(a + bsz, len(traces)))) for a in range(0, len(traces), bsz)]
     vfuts = [tpool.submit(validate_batch, [traces[i] for i in b]) for b in batches]
     accepted = 0
+    accepted_idx = []
     tstates = ttrans = truns = 0
     tcov = {}
     for b, f in zip(batches, vfuts):
@@ -1014,6 +1114,7 @@ def main():
             s = o["summary"]
             if v[0] == "accepted":
                 accepted += 1
+                accepted_idx.append(i)
                 real_summ["evaluations"] += s["evals"]
                 real_summ["asked"] += s["asked"]
                 real_summ["queries"] += s["queries"]
@@ -1032,12 +1133,24 @@ def main():
                 evs = traces[i]["ev"]
                 e = evs[l - 1] if l <= len(evs) else {"ev": "end"}
                 key = {"E": "traceA:split-sequence", "K": "traceA:n-clusters", "L": "traceA:labels", "P": "traceA:predict-range"}.get(e["ev"], "traceA:incomplete")
-                ck.violation(key, f"trace of a real fit rejected by HGMTrace at event {l} {e}: spec state pc={v[2].get('pc')} K={v[2].get('K')} "
+                ck.violation(key, f"trace of a real fit rejected by HGMTrace at event {l} {str(e)[:240]}: spec state pc={v[2].get('pc')} K={v[2].get('K')} "
                                   f"clusters={[len(c) for c in v[2].get('clusters', ())]} cap={traces[i]['maxIter'] + 1} minPts={traces[i]['minPts']} ({o['cfg']})",
                              dict(o["rep"], trace=traces[i], first_unmatched_event=l, last_matched_state=v[2]))
+    # ---- binding self-test: corrupted copies of accepted traces must be rejected by TLC
+    donors = [traces[i] for i in accepted_idx if owners[i]["summary"]["K"] > 1][:3] + [traces[i] for i in accepted_idx[:1]]
+    corrupted = [(what, t) for d_ in donors for what, t in corrupt_traces(d_)]
+    binding_rejected = 0
+    if corrupted:
+        verdicts, _ = validate_batch([t for _, t in corrupted], diagnose=False)
+        binding_rejected = sum(1 for v in verdicts if v[0] != "accepted")
+        missed = [what for (what, _), v in zip(corrupted, verdicts) if v[0] == "accepted"]
+        if missed:
+            raise RuntimeError(f"binding self-test: corrupted traces accepted by HGMTrace: {missed}")
     for a in ["Internal", "TraceEval", "TraceK", "TraceLabels", "TracePredict", "TraceAccept"]:
-        if traces and tcov.get(a, (0, 0))[1] == 0:
+        if traces and tcov.get(a, (0, 0))[1] == 0 and ck.violations == 0 and not ck.known_hits:
             raise RuntimeError(f"vacuity: trace action {a} never taken")
+    if ck.violations == 0 and not ck.known_hits and real_summ["with_split"] == 0:
+        raise RuntimeError("vacuity: no real fit accepted a split")
 
     ck.assumptions += [
         "the EM fits / BIC values / child predictions of GaussianMixture are an arbitrary oracle in the model "
@@ -1064,6 +1177,8 @@ def main():
         "bindingA_real_fits": real_summ,
         "bindingA_traces_accepted_by_TLC": accepted,
         "bindingA_traces_submitted": len(traces),
+        "binding_mutations_rejected": binding_rejected,
+        "binding_mutations_tried": len(corrupted),
         "bindingA_validation": "TLA+ trace spec HGMTrace.tla (conjoins the HGMSplit actions), batched through TLC",
         "bindingA_tlc": {"runs": truns, "states": tstates, "transitions": ttrans, "coverage": {k: list(v) for k, v in tcov.items()}},
         "tlc_coverage": {k: list(v) for k, v in cov_total.items()},
@@ -1074,7 +1189,8 @@ def main():
                         "monitored failure is reported as a VIOLATION only if it is gross (non-finite parameters, negative weights, sum off by > 1e-9, "
                         "asymmetric / indefinite covariance, mean outside the box by > 1e-6 of the data scale), the failing fit's input is clearly "
                         "well-posed (finite, |x| <= 1e6, finite non-negative weights, >= 4k(d+1) distinct points of non-negligible weight, each of "
-                        "their coordinates spreading >= 1e-3) and it reproduces on two fresh fits of the pristine class",
+                        "their coordinates spreading >= 1e-3, singular-value ratio of the centred points >= 1e-3 i.e. not collinear / "
+                        "degenerate) and it reproduces on two fresh fits of the pristine class",
         "monitor:fits": mon,
     }
     for k, v in sorted(mon_keys.items()):
